@@ -132,11 +132,17 @@ def typestate_rule(ctx: Ctx, rr: RuleResult, funcs: list[FuncInfo], policy: Poli
     return n
 
 
-def unshielded_waits(ctx: Ctx, funcs: list[FuncInfo]) -> list[tuple[FuncInfo, ast.Call, str]]:
-    """`await wait_for(F, t)` on a future held in an attribute/variable (it is cancelled on timeout)."""
-    out = []
+def unshielded_waits(ctx: Ctx, funcs: list[FuncInfo]) -> list[tuple[FuncInfo, ast.AST, str]]:
+    """`await wait_for(F, t)` / a bare `await F` on a future held in an attribute: when the wait is cut short (timeout scope,
+    cancellation of the waiting task) asyncio cancels F itself."""
+    out: list[tuple[FuncInfo, ast.AST, str]] = []
     for f in funcs:
         for n in own_nodes(f.node):
+            if isinstance(n, ast.Await) and isinstance(n.value, ast.Attribute):
+                at = ctx.cg.atoms(f, n.value) or ()
+                if any("Future" in x for x in at):
+                    out.append((f, n, norm(n.value)))
+                continue
             if isinstance(n, ast.Call) and norm(n.func).endswith("wait_for") and n.args:
                 a = n.args[0]
                 if isinstance(a, ast.Call):
